@@ -29,7 +29,7 @@ class Unit:
     def __init__(self, name, props, tu, roots, target, contracts, harness=None, replace=(), stops=(), unwind=None,
                  defines=(), quick_defines=(), thorough_defines=(), tiers=("quick", "thorough"), replay=None,
                  kind="proof", bound_note="", timeout=None, extra_cbmc=(), loop_contracts=False, trusted=(),
-                 note="", mutants=(), solver=None, object_bits=None, no_canary=False, known=(), spec_target=False, unwindset=(), quick_unwind=None, mem_gb=None):
+                 note="", mutants=(), solver=None, object_bits=None, no_canary=False, known=(), spec_target=False, unwindset=(), quick_unwind=None, mem_gb=None, quick_unwindset=()):
         self.name = name
         self.props = list(props)
         self.tu = tu
@@ -59,6 +59,7 @@ class Unit:
         self.known = list(known)
         self.unwindset = list(unwindset)    # e.g. ['verif_memset.0:66']
         self.quick_unwind = quick_unwind
+        self.quick_unwindset = list(quick_unwindset)
         self.mem_gb = mem_gb
         self.spec_target = spec_target   # target is a lemma defined in the contracts header, not a lowered function
 
@@ -196,8 +197,9 @@ class Runner:
         uw = unit.quick_unwind if (self.tier == "quick" and unit.quick_unwind is not None) else unit.unwind
         if uw is not None:
             flags += ["--unwind", str(uw)]
-        if unit.unwindset:
-            flags += ["--unwindset", ",".join(unit.unwindset)]
+        uws = list(unit.unwindset) + (list(unit.quick_unwindset) if self.tier == "quick" else [])
+        if uws:
+            flags += ["--unwindset", ",".join(uws)]
         if unit.object_bits:
             flags += ["--object-bits", str(unit.object_bits)]
         if unit.solver:
